@@ -4,8 +4,6 @@
        ConnectedAddrTTL (pstoreds stores expiries as unix seconds);
      - every TTL given to AddAddrs / SetAddrs / UpdateAddrs / ConsumePeerRecord is not positive, or
        whole seconds, or in the connected class (>= ConnectedAddrTTL);
-     - a batch with a positive TTL does not name the same transport address twice (setAddrs appends
-       one entry per occurrence of a new address);
      - sequence numbers are not negative (uint64). *)
 From Coq Require Import List ZArith Bool Lia Permutation.
 From Verif Require Import lib.Wire gen.Consts_c09 c09.Abs c09.Model_mem c09.Model_ds c09.Spec
@@ -18,9 +16,9 @@ Definition ttl_ok (t : Z) : bool := (t <=? 0) || (t mod SEC =? 0) || (ConnectedA
 
 Definition dop_okb (now : Z) (o : op) : bool :=
   match o with
-  | OAdd _ ttl l | OSet _ ttl l => ttl_ok ttl && ((ttl <=? 0) || nodup_b (clean_addrs l))
+  | OAdd _ ttl _ | OSet _ ttl _ => ttl_ok ttl
   | OUpdate _ _ new => ttl_ok new
-  | OConsume _ seq _ ttl bad l => bad || ((0 <=? seq) && ttl_ok ttl && ((ttl <=? 0) || nodup_b (clean_addrs l)))
+  | OConsume _ seq _ ttl bad _ => bad || ((0 <=? seq) && ttl_ok ttl)
   | OAdvance d => (0 <=? d) && (d mod SEC =? 0) && (now + d + SEC <=? ConnectedAddrTTL)
   | _ => true
   end.
@@ -39,11 +37,11 @@ Qed.
 Lemma dop_okb_P now o : dop_okb now o = true -> dop_ok now o.
 Proof.
   destruct o; cbn [dop_okb dop_ok]; try tauto.
-  - rewrite andb_true_iff, orb_true_iff, Z.leb_le, <- nodup_zmem. intros [H1 H2]. split; [now apply ttl_ok_P|exact H2].
-  - rewrite andb_true_iff, orb_true_iff, Z.leb_le, <- nodup_zmem. intros [H1 H2]. split; [now apply ttl_ok_P|exact H2].
   - apply ttl_ok_P.
-  - rewrite !orb_true_iff, !andb_true_iff, orb_true_iff, !Z.leb_le, <- nodup_zmem. intros [H|[[H1 H2] H3]]; [now left|right].
-    split; [exact H1|split; [now apply ttl_ok_P|exact H3]].
+  - apply ttl_ok_P.
+  - apply ttl_ok_P.
+  - rewrite orb_true_iff, andb_true_iff, Z.leb_le. intros [H|[H1 H2]]; [now left|right].
+    split; [exact H1|now apply ttl_ok_P].
   - rewrite !andb_true_iff, !Z.leb_le, Z.eqb_eq. unfold whole. tauto.
 Qed.
 
@@ -277,8 +275,11 @@ Qed.
 (* ---- the hypotheses are needed, and satisfiable ------------------------------------------------------------------------ *)
 (* a TTL that is not whole seconds: pstoreds rounds the expiry down *)
 Definition wit_subsecond : list op := [OAdd 1 1500000000 [(1, 0)]; OAdvance SEC; OAddrs 1].
-(* a batch naming a new address twice: pstoreds stores it twice *)
-Definition wit_dup_batch : list op := [OAdd 1 (s_ 120) [(1, 0); (1, 1)]; OAddrs 1; OGC].
+(* a batch naming a new address twice (once with /p2p/<self>): stored once by both books since /repo
+   78d0362; before, pstoreds stored and returned it twice *)
+Definition wit_dup_batch : list op :=
+  [OAdd 1 (s_ 120) [(1, 0); (1, 1)]; OAddrs 1; OSet 2 (s_ 120) [(2, 0); (2, 0)]; OAddrs 2;
+   OConsume 1 1 1 (s_ 900) false [(3, 1); (3, 0)]; OAddrs 1; OGC].
 (* between expiry and GC the two stores list different expired peers *)
 Definition wit_peers_slack : list op := [OAdd 1 (s_ 120) [(1, 0)]; OAdvance (s_ 120); OAddrs 1; OPeers].
 
@@ -295,13 +296,18 @@ Lemma ds_hypotheses_needed_l :
   ds_ok 0 wit_subsecond = false /\
   map snd (a_trace a_init wit_subsecond) = [ONone; ONone; OList [1]] /\
   map snd (d_trace (d_init false 0) wit_subsecond) = [ONone; ONone; OList []] /\
-  ds_ok 0 wit_dup_batch = false /\
-  map snd (a_trace a_init wit_dup_batch) = [ONone; OList [1]; OSizes 1 0 0] /\
-  map snd (d_trace (d_init false 0) wit_dup_batch) = [ONone; OList [1; 1]; OSizes 2 0 0] /\
-  holds (d_trace (d_init false 0) wit_dup_batch) = false /\
   ds_ok 0 wit_peers_slack = true /\
   map snd (m_trace m_init wit_peers_slack) = [ONone; ONone; OList []; OList [1]] /\
   map snd (d_trace (d_init false 0) wit_peers_slack) = [ONone; ONone; OList []; OList []].
+Proof. repeat split; vm_compute; reflexivity. Qed.
+
+Lemma ds_dup_batch_l :
+  ds_ok 0 wit_dup_batch = true /\
+  map snd (a_trace a_init wit_dup_batch) = [ONone; OList [1]; ONone; OList [2]; OVal 1; OList [1; 3]; OSizes 3 1 0] /\
+  forallb (fun c => list_eqb (fun x y => obs_conform x y) (map snd (d_trace c wit_dup_batch))
+                             (map snd (a_trace a_init wit_dup_batch))) ds_cfgs = true /\
+  list_eqb (fun x y => obs_conform (norm_obs x) (norm_obs y)) (map snd (m_trace m_init wit_dup_batch))
+           (map snd (a_trace a_init wit_dup_batch)) = true.
 Proof. repeat split; vm_compute; reflexivity. Qed.
 
 Lemma ds_example_l : ds_ok 0 full_example = true /\
